@@ -45,16 +45,16 @@ func (e *ATExecutor) Interceptors(hooks []exec.SQLHook) {
 
 // ExecWithNamedValue find the executor by sql type
 func (e *ATExecutor) ExecWithNamedValue(ctx context.Context, execCtx *types.ExecContext, f exec.CallbackWithNamedValue) (types.ExecResult, error) {
-	queryParser, err := parser.DoParser(execCtx.Query)
-	if err != nil {
-		return nil, err
-	}
-
 	var executor executor
 
 	if !tm.IsGlobalTx(ctx) {
-		executor = NewPlainExecutor(queryParser, execCtx)
+		// plain pass-through: nothing about the statement needs to be known, so do not parse it
+		executor = NewPlainExecutor(nil, execCtx)
 	} else {
+		queryParser, err := parser.DoParser(execCtx.Query)
+		if err != nil {
+			return nil, err
+		}
 		switch queryParser.SQLType {
 		case types.SQLTypeInsert:
 			executor = NewInsertExecutor(queryParser, execCtx, e.hooks)
